@@ -6,7 +6,8 @@ import os
 HERE = os.path.dirname(os.path.dirname(os.path.abspath(__file__)))
 
 TRUST = ('Trusted: pyvc\'s documented subset semantics of CPython (int mathematical, float real, == as logical equality); '
-         'z3 soundness on QF LIA/LRA/UF/Seq/datatypes (second z3 build votes in thorough); the stdlib models and user-callable '
+         'z3 soundness on QF LIA/LRA/UF/Seq/datatypes (second z3 build votes in thorough; a query both builds leave open within the budget is retried under several seeds '
+         'before it counts as undecided; the one sequence lemma the engine supplies as a hint is proved on every run, DESIGN 8.18); the stdlib models and user-callable '
          'assumptions listed in evidence.coverage.trusted_base; termination is not proved (partial correctness).')
 
 CLAIMED = {
